@@ -18,7 +18,7 @@ Definition check_entry (honor_filemode : bool) (i : ientry) (w : option wentry) 
   match w with
   | None => true                                             (* FileNotFoundError: removed *)
   | Some x =>
-    if w_isdir x then false                                  (* a directory where a file is tracked: _has_directory_changed, not modelled here *)
+    if w_isdir x then true                                   (* a directory where a file is tracked (_has_directory_changed; submodules are out of this model): counts as removed *)
     else if w_sig x =? i_sig i                               (* _stat_matches_entry: content taken as unchanged without reading; *)
     then honor_filemode && negb (e_mode (w_entry x) =? e_mode (i_entry i))    (* the mode is in the stat result and compared *)
     else negb (e_id (w_entry x) =? e_id (i_entry i))
@@ -29,7 +29,8 @@ Definition check_entry (honor_filemode : bool) (i : ientry) (w : option wentry) 
 Definition differs (honor_filemode : bool) (i : ientry) (w : option wentry) : bool :=
   match w with
   | None => true
-  | Some x => negb (e_id (w_entry x) =? e_id (i_entry i))
+  | Some x => w_isdir x
+              || negb (e_id (w_entry x) =? e_id (i_entry i))
               || (honor_filemode && negb (e_mode (w_entry x) =? e_mode (i_entry i)))
   end.
 
